@@ -13,7 +13,7 @@ from ..core import Violation
 from ..harness import Harness, kvline
 from ..ref import script as R, tx as T, verify as V
 from ..ref.script import F
-from ..gen import scripts as G
+from ..gen import scripts as G, limits as L
 
 PID = 'C01'
 RULE = ('cases = (script, initial stack, flag set, script version[, tx context]) from grammar-directed generation with abstract stack typing, '
@@ -115,7 +115,7 @@ def check_case(case, ctx, h=None):
         raise Violation(case, 'script inside the domain was refused: %s' % got['refused'], observed=got, expected=_short(exp))
     nexec = len(exp['trace'])
     cls = case.get('cls') or 'grammar'
-    nontriv = nexec >= 3 or cls in ('operand', 'enum1', 'enum2')
+    nontriv = nexec >= 3 or cls in ('operand', 'enum1', 'enum2', 'long')
     ctx.case(key, nontriv, dict(case_json(case), outcome=exp['err'] or 'ok', ops=nexec), cls)
     ctx.count('outcome:' + (exp['err'] or 'ok'))
     ctx.count('sv:%d' % case['sv'])
@@ -214,7 +214,20 @@ def operand_cases(draw):
     return dict(script=bytes(body), stack=stack, flags=draw(G.flagsets()), sv=draw(st.sampled_from(G.SIGVERS)), tx=draw(txctx), cls='operand')
 
 
+@st.composite
+def long_cases(draw):
+    """long scripts around the operation-count / operand-size / key-count boundaries (shared with C10), compared step by step"""
+    c = draw(st.one_of(L.opcount(), L.opcount(), L.numsize(), L.multisig_keys()))
+    if c.get('succ'):
+        c = dict(c, succ=None)
+    return dict(script=c['script'], stack=c['stack'], flags=c['flags'], sv=c['sv'], tx=None, cls='long')
+
+
 # ------------------------------------------------------------------ worker tasks
+def w_long(ctx, wid, seed, examples):
+    core.hyp_campaign(ctx, 'long', long_cases(), check_case, examples, seed, case_json)
+
+
 def w_grammar(ctx, wid, seed, examples):
     core.hyp_campaign(ctx, 'grammar', grammar_cases(), check_case, examples, seed, case_json)
 
@@ -284,6 +297,7 @@ def run(tier, t0):
     tasks += [(w_grammar, dict(examples=g)) for _ in range(W)]
     tasks += [(w_operand, dict(examples=o)) for _ in range(W)]
     tasks += [(w_raw, dict(examples=r)) for _ in range(max(2, W // 4))]
+    tasks += [(w_long, dict(examples=max(40, r // 8))) for _ in range(max(2, W // 4))]
     m = core.parallel(PID, tasks)
     m.exhaustive = False
     extra = dict(enumerated='all 256 one-letter scripts x %d stacks x 3 versions x %d flag sets; two-letter scripts: %s' % (
